@@ -72,7 +72,8 @@ def run_mc(pid, module, cfg, workers=8, timeout_s=900, expect_violation=False, s
     m = STATES_RE.search(out)
     states = int(m.group(1)) if m else 0
     distinct = int(m.group(2)) if m else 0
-    violated = ("is violated" in out) or ("Temporal properties were violated" in out) or ("Deadlock reached" in out)
+    violated = ("is violated" in out) or ("Temporal properties were violated" in out) or ("Deadlock reached" in out) \
+        or ("was violated" in out)
     finished = ("Model checking completed. No error has been found." in out) or (simulate and rc in (0, 124))
     if rc == 124 and not simulate:
         raise ToolError(f"TLC timed out on {cfg}")
